@@ -1,4 +1,6 @@
 // environment of SessionManager (same translation unit, see unit.json): two slots, their tokens, no-op ~Session
+#include "config.h"
+#include "Session.h"
 #include "Slot.h"
 #include "Token.h"
 #include "shared.h"
